@@ -41,7 +41,17 @@ Definition acct_of_sx (a : sx) : option (option acct) :=
   | _ => None
   end.
 
-(* c15.next: (ver pk opts acct) -> (seqno () | (init-hash)) | 'err | 'panic *)
+(* the decoded data struct of an active account: (seqno id pk flag extra (key ...)) | 'err *)
+Definition data_sx (v : version) (st : acct) : sx :=
+  match st with
+  | AActive d =>
+      out_res (fun x => SL [SN (wd_seqno x); SN (wd_id x); SBits (wd_pk x); SB (wd_flag x); SN (wd_extra x);
+                            SL (map SBits (wd_keys x))])
+              (decode_data v d)
+  | _ => SL []
+  end.
+
+(* c15.next: (ver pk opts acct) -> (seqno () | (init-hash)  decoded-data) | 'err | 'panic *)
 Definition run_next (a : sx) : sx :=
   match a with
   | SL (SN ver :: SBytes pk :: opts :: st :: _) =>
@@ -52,7 +62,8 @@ Definition run_next (a : sx) : sx :=
                                 match snd p with
                                 | None => SL []
                                 | Some i => SL [hash_sx i]
-                                end])
+                                end;
+                                data_sx v ac])
                   (do w <- new_wallet (bytes_to_bits pk) v (opts_of_sx opts);
                    next_params code_of w ac)
       | _, _ => sx_err "next args"
